@@ -14,7 +14,7 @@ BIN=/verif/harness/target/release/verif
 WORK=/verif/.work/fuzz/$ID/$(echo "$STAGE" | tr -c 'A-Za-z0-9_-' '_')
 SUMMARY=/verif/.work/fuzz/$ID/summary-$(echo "$STAGE" | tr -c 'A-Za-z0-9_-' '_').json
 export CARGO_NET_OFFLINE=true
-mkdir -p "$WORK"; rm -rf "$WORK/corpus" "$WORK/artifacts"; mkdir -p "$WORK/corpus" "$WORK/artifacts"
+mkdir -p "$WORK"; rm -rf "$WORK/corpus" "$WORK/artifacts" "$WORK"/fuzz-*.log; mkdir -p "$WORK/corpus" "$WORK/artifacts"
 if ! RUSTFLAGS="--cfg apollographql_apollo_rs_verif" cargo +nightly fuzz build --fuzz-dir /verif/fuzz prop >"$WORK/build.log" 2>&1; then
   echo "fuzz stage unavailable for $ID (cargo +nightly fuzz build failed; see $WORK/build.log)"
   printf '{"stage":"%s","status":"unavailable"}\n' "$STAGE" > "$SUMMARY"
@@ -36,12 +36,32 @@ else
 fi
 export VERIF_FUZZ_PROP="$ID" VERIF_FUZZ_STAGE="$STAGE" VERIF_ROOT=/verif
 export ASAN_OPTIONS="detect_leaks=0:abort_on_error=1:symbolize=0"
-( cd "$WORK" && "$FBIN" corpus -artifact_prefix=artifacts/ -max_len=$MAXLEN -len_control=0 -seed=$(( (SEED % 2000000000) + 1 )) \
-    -max_total_time="$SECS" -fork="$JOBS" -ignore_crashes=1 -ignore_timeouts=1 -ignore_ooms=1 -timeout=25 -rss_limit_mb=3000 \
-    -print_final_stats=1 > fuzz.log 2>&1 )
-EXECS=$(grep -o '#[0-9]*: cov' "$WORK/fuzz.log" | tail -1 | tr -dc '0-9')
-COV=$(grep -o 'cov: [0-9]*' "$WORK/fuzz.log" | tail -1 | tr -dc '0-9')
-FT=$(grep -o 'ft: [0-9]*' "$WORK/fuzz.log" | tail -1 | tr -dc '0-9')
+# N independent libFuzzer processes on one shared corpus directory; a process that finds a crash saves the
+# input and exits, and is restarted (different seed) while time remains, so one shallow defect does not
+# end the campaign. (libFuzzer's own -fork mode restarts short-lived jobs and spends most of its time
+# re-reading the corpus.)
+END=$(( $(date +%s) + SECS ))
+i=0
+while [ $i -lt "$JOBS" ]; do
+  (
+    k=0
+    while :; do
+      left=$(( END - $(date +%s) ))
+      [ $left -le 2 ] && break
+      ( cd "$WORK" && "$FBIN" corpus -artifact_prefix=artifacts/ -max_len=$MAXLEN -len_control=0 \
+          -seed=$(( (SEED % 2000000000) + 1 + i * 1000 + k )) -max_total_time=$left -timeout=25 -rss_limit_mb=3000 \
+          -print_final_stats=1 >> "fuzz-$i.log" 2>&1 )
+      k=$((k+1))
+      [ $k -gt 50 ] && break
+    done
+  ) &
+  i=$((i+1))
+done
+wait
+cat "$WORK"/fuzz-*.log > "$WORK/fuzz.log" 2>/dev/null
+EXECS=$(grep -h 'stat::number_of_executed_units' "$WORK"/fuzz-*.log | awk '{s+=$2} END {print s+0}')
+COV=$(grep -ho 'cov: [0-9]*' "$WORK"/fuzz-*.log | tr -dc '0-9\n' | sort -n | tail -1)
+FT=$(grep -ho 'ft: [0-9]*' "$WORK"/fuzz-*.log | tr -dc '0-9\n' | sort -n | tail -1)
 CORP=$(ls "$WORK/corpus" | wc -l)
 RC=0; NART=0; CONFIRMED=0
 for a in "$WORK"/artifacts/crash-* "$WORK"/artifacts/timeout-* "$WORK"/artifacts/oom-*; do
@@ -54,7 +74,7 @@ for a in "$WORK"/artifacts/crash-* "$WORK"/artifacts/timeout-* "$WORK"/artifacts
     *) echo "INCONCLUSIVE property=$ID fuzz input $(basename "$a") exceeded the libFuzzer time/memory limit under ASan (not a violation)";;
   esac
 done
-printf '{"stage":"%s","status":"ran","engine":"libFuzzer (cargo-fuzz, ASan, fork=%s)","seconds":%s,"executions":%s,"coverage_edges":%s,"features":%s,"corpus_files":%s,"crash_inputs":%s,"confirmed_violations":%s}\n' \
+printf '{"stage":"%s","status":"ran","engine":"libFuzzer (cargo-fuzz, ASan, %s processes on one corpus)","seconds":%s,"executions":%s,"coverage_edges":%s,"features":%s,"corpus_files":%s,"crash_inputs":%s,"confirmed_violations":%s}\n' \
   "$STAGE" "$JOBS" "$SECS" "${EXECS:-0}" "${COV:-0}" "${FT:-0}" "$CORP" "$NART" "$CONFIRMED" > "$SUMMARY"
 cat "$SUMMARY"
 exit $RC
